@@ -8,6 +8,7 @@ import (
 	"io"
 	"math"
 	"math/big"
+	"runtime"
 	"sync"
 	"syscall"
 
@@ -153,6 +154,24 @@ type fixedReader struct {
 	// hostile behaviours (memory safe, but outside what a polite reader does):
 	spill  []byte // written over p[n:cap(p)], the spare capacity behind the requested bytes
 	onRead func() // called during the first Read (the caller's other buffers change under the signer)
+	// stalls: that many (0, nil) reads before every chunk of data (legal for an io.Reader, if
+	// discouraged; io.ReadFull keeps asking)
+	stalls, stalled int
+	// async: the bytes are written into p by ANOTHER goroutine while this one - the signer's -
+	// recurses deeply enough for its stack to be moved (the usual time-out / cancellation
+	// wrapper hands p to a worker; a pointer into the signer's stack must not have been hidden
+	// from the compiler)
+	async bool
+}
+
+//go:noinline
+func growStack(depth int, sink *[256]byte) byte {
+	var pad [256]byte
+	pad[depth%256] = byte(depth)
+	if depth == 0 {
+		return pad[0] + sink[0]
+	}
+	return growStack(depth-1, &pad) + pad[1]
 }
 
 func (f *fixedReader) Read(p []byte) (int, error) {
@@ -163,6 +182,11 @@ func (f *fixedReader) Read(p []byte) (int, error) {
 		}
 		return 0, io.EOF
 	}
+	if f.stalled < f.stalls {
+		f.stalled++
+		return 0, nil
+	}
+	f.stalled = 0
 	n := len(p)
 	if f.chunk > 0 && n > f.chunk {
 		n = f.chunk
@@ -170,7 +194,23 @@ func (f *fixedReader) Read(p []byte) (int, error) {
 	if n > len(f.data)-f.pos {
 		n = len(f.data) - f.pos
 	}
-	copy(p, f.data[f.pos:f.pos+n])
+	if f.async {
+		done := make(chan struct{})
+		start := make(chan struct{})
+		src := f.data[f.pos : f.pos+n]
+		go func() {
+			<-start
+			copy(p, src)
+			close(done)
+		}()
+		var pad [256]byte
+		_ = growStack(600, &pad) // ~300 KiB of frames: the goroutine's stack is reallocated
+		runtime.GC()             // and shrunk again on the way back
+		close(start)
+		<-done
+	} else {
+		copy(p, f.data[f.pos:f.pos+n])
+	}
 	f.pos += n
 	if f.spill != nil {
 		rest := p[:cap(p)][n:]
